@@ -99,15 +99,17 @@ func readASN1CertList(r io.Reader, totalLenBytes int, elementLenBytes int) ([]AS
 	list := list.New()
 	listReader := bytes.NewReader(listBytes)
 	var entry []byte
-	for err == nil {
+	// The list ends exactly where the last element ends: whatever is left over
+	// must be a complete element, a partial length prefix is not "end of list".
+	for listReader.Len() > 0 {
 		entry, err = readVarBytes(listReader, elementLenBytes)
 		if err != nil {
-			if err != io.EOF {
-				return []ASN1Cert{}, err
+			if err == io.EOF || err == io.ErrUnexpectedEOF {
+				err = errors.New("short read: truncated length prefix in certificate list")
 			}
-		} else {
-			list.PushBack(entry)
+			return []ASN1Cert{}, err
 		}
+		list.PushBack(entry)
 	}
 	ret := make([]ASN1Cert, list.Len())
 	i := 0
@@ -181,7 +183,15 @@ func ReadMerkleTreeLeaf(r io.Reader) (*MerkleTreeLeaf, error) {
 // UnmarshalX509ChainArray unmarshalls the contents of the "chain:" entry in a
 // GetEntries response in the case where the entry refers to an X509 leaf.
 func UnmarshalX509ChainArray(b []byte) ([]ASN1Cert, error) {
-	return readASN1CertList(bytes.NewReader(b), CertificateChainLengthBytes, CertificateLengthBytes)
+	reader := bytes.NewReader(b)
+	chain, err := readASN1CertList(reader, CertificateChainLengthBytes, CertificateLengthBytes)
+	if err != nil {
+		return chain, err
+	}
+	if reader.Len() != 0 {
+		return []ASN1Cert{}, fmt.Errorf("trailing data after certificate chain: %d bytes", reader.Len())
+	}
+	return chain, nil
 }
 
 // UnmarshalPrecertChainArray unmarshalls the contents of the "chain:" entry in
@@ -201,6 +211,9 @@ func UnmarshalPrecertChainArray(b []byte) ([]ASN1Cert, error) {
 	remainingChain, err := readASN1CertList(reader, CertificateChainLengthBytes, CertificateLengthBytes)
 	if err != nil {
 		return chain, err
+	}
+	if reader.Len() != 0 {
+		return chain, fmt.Errorf("trailing data after precertificate chain: %d bytes", reader.Len())
 	}
 	chain = append(chain, remainingChain...)
 	return chain, nil
